@@ -1061,6 +1061,11 @@ def _oracle_modes(self, rc, op, pre, post, real_out):
         for k, r in pre_rows.items():
             if post_rows.get(k) != r:
                 self._fail('C14', 'import-touched', f'index row of key {k[:10]} changed during import')
+        wrong_flag = [r for k_, r in post_rows.items() if k_ not in pre_rows and bool(r[5]) != bool(op['compress'])]
+        if wrong_flag:
+            for prop_ in ('C10', 'C14'):
+                self._fail(prop_, 'import-compress-flag', f'import_objects(compress={op["compress"]}) stored {len(wrong_flag)} of '
+                                                          f'{len([1 for k_ in post_rows if k_ not in pre_rows])} new objects with compressed={bool(wrong_flag[0][5])}')
         same = src.cfg.hash_type == rc.cfg.hash_type
         for k in op['ks']:
             if not (isinstance(k, int) and k in src.expected) or (rc.name, k) in self.pre_damaged:
